@@ -77,6 +77,7 @@ class PArr:
         self.reload_atoms = False   # a load of a just-stored element returns an atom
         self.store_log = []   # (rowkey, idx, value, node)
         self.load_log = []    # (rowkey, idx, node)
+        self.events = []      # ('load' | 'store', rowkey, idx) in program order
 
 
 class Rec:
@@ -946,14 +947,18 @@ class SymEval:
                 if not all(isinstance(x, int) for x in rest):
                     raise Unsupported('symbolic trailing index')
                 base.load_log.append((rk, rest, node))
+                base.events.append(('load', rk, tuple(rest), node))
                 k = (rk,) + tuple(rest)
                 if k in base.stores and not base.reload_atoms:
                     return base.stores[k]
                 return self.A.sym('%s[%s]' % (base.name, ','.join([rk] + [str(x) for x in rest])))
             if len(rest) == 0:
                 out = SArray(base.trail, {})
+                n_ev = len(base.events)
                 for i in out.indices():
                     out.entries[i] = self.index(base, (row,) + i, node)
+                # a whole-row view (possibly an output argument): not element reads
+                base.events[n_ev:] = [('view',) + e[1:] for e in base.events[n_ev:]]
                 out.parr = (base, row)
                 return out
             raise Unsupported('partial index on parameter array')
@@ -1020,6 +1025,7 @@ class SymEval:
             if len(rest) == len(base.trail) and all(isinstance(x, int) for x in rest):
                 base.stores[(rk,) + tuple(rest)] = self.rat(v)
                 base.store_log.append((rk, tuple(rest), self.rat(v), node))
+                base.events.append(('store', rk, tuple(rest), node))
                 return
             if len(rest) == 0 and isinstance(v, SArray) and v.shape == base.trail:
                 for i in v.indices():
